@@ -156,6 +156,22 @@ def extracted_mq(repo):
                          "(add_packet_to_queue in place)", "mq_st", "m_", MQ_STATE, "mq_fx", MQ_CONS, specs)
 
 
+SPINIT_CONS = [("FxBaseInit", ""),                                   # super().__init__(env, rate, flow2class, debug)
+               ("FxSortPriorities", "(key_index : Z) (reverse : bool)"),  # self.priorities = sorted(priorities.items(), key=lambda item: item[k], reverse=r)
+               ("FxStartRun", "")]                                   # self.proc = env.process(self.run(env))
+SPINIT_FX = [("super().__init__(env, rate, flow2class, debug)", "FxBaseInit", []),
+             ("self.priorities = sorted(priorities.items(), key=lambda item: item[_1], reverse=_2)", "FxSortPriorities", ["Z", "bool"]),
+             ("self.proc = env.process(self.run(env))", "FxStartRun", [])]
+
+
+def extracted_spinit(repo):
+    """SP.__init__ (C13): the scan order of run() is fixed here"""
+    import os
+    from vlib import translate as tr
+    spec = tr.FnSpec(os.path.join(repo, "onl", "scheduler", "sp.py"), "SP", "__init__", "gen_SP_init", effects=SPINIT_FX)
+    return tr.gen_module("onl/scheduler/sp.py: SP.__init__", None, "", [], "spinit_fx", SPINIT_CONS, [spec])
+
+
 def extracted_schedmon(repo):
     import os
     from vlib import translate as tr
@@ -171,16 +187,18 @@ class MQPart:
     serves = ["C12", "C13", "C15", "C08"]
     weight = 3
     coq_imports = ["From ONL Require Import Base.Cmp Elem.Packet Elem.StoreQ Elem.SchedBase Elem.SP Elem.RR Elem.WRR."]
-    props_files = {"C12": ["Props/C12_MQ.v", "Props/C12_BridgeMQ.v", "Props/C12_BridgeMon.v"], "C13": ["Props/C13.v"], "C15": ["Props/C15_RR.v"],
+    props_files = {"C12": ["Props/C12_MQ.v", "Props/C12_BridgeMQ.v", "Props/C12_BridgeMon.v"], "C13": ["Props/C13.v", "Props/C13_Bridge.v"], "C15": ["Props/C15_RR.v"],
                    "C08": ["Props/C08_MQ.v"]}
 
     # ---- second tie: regenerate the translated bodies before the Coq build (fail closed) ----------------
     def pre_build(self, prop_id):
-        if prop_id != "C12":
-            return
         import os
         from vlib import framework as fw
         from vlib import translate as tr
+        if prop_id == "C13":
+            tr.write_if_changed(os.path.join(fw.COQ, "Gen", "Extracted_spinit.v"), extracted_spinit(fw.REPO))
+        if prop_id != "C12":
+            return
         tr.write_if_changed(os.path.join(fw.COQ, "Gen", "Extracted_mq.v"), extracted_mq(fw.REPO))
         tr.write_if_changed(os.path.join(fw.COQ, "Gen", "Extracted_schedmon.v"), extracted_schedmon(fw.REPO))
 
@@ -211,7 +229,10 @@ class MQPart:
             "the per-flow statements of Monitor.run of the tree under test before every build; the C12_gen_* theorems "
             "(Props/C12_BridgeMQ.v, C12_BridgeMon.v) bridge them to the SPut / SSample steps of the hand-written model; Monitor's loop over "
             "all_flows() itself is not translated"]
-    trusted_base = {"C12": _tb + _tie, "C13": _tb, "C15": _tb, "C08": _tb}
+    _tie13 = ["vlib/translate.py (Python ast, fail closed) regenerates coq/Gen/Extracted_spinit.v from SP.__init__ of the tree under test "
+              "before every build; C13_gen_sp_init (Props/C13_Bridge.v) bridges the sorted(...) line to the scan order of the model "
+              "(Python's sorted is taken as a stable sort); SP.run's scan itself is a generator and not translated here"]
+    trusted_base = {"C12": _tb + _tie, "C13": _tb + _tie13, "C15": _tb, "C08": _tb}
     _as = ["workloads contain only packets of flows whose class is configured (SP: flow2class(flow) is a key of the priority "
            "table; RR/WRR: the flow is listed) with size >= 0, rate > 0 (a packet of an unconfigured class makes run() spin "
            "without yielding: outside C12's domain)",
